@@ -15,6 +15,7 @@ LEVEL_TEXT = ("Static structural proof of necessary conditions: (R16.1) the thre
               "and the dataset result; (R16.4) the command-line status is non-zero iff the unmodified validate result "
               "is non-empty; (R16.5) applicable sidecars are collected root->leaf and merged forward with later-wins. "
               "The applicability test on entities and equality with per-file validation are NOT decided.")
+LEVEL_EXTRA = ''
 
 
 def bind(call, callee, skip_self=False):
